@@ -171,6 +171,9 @@ void Exec::op_copy(Client &c) {
 		for (size_t i = 0; i < std::max(la.size(), lb.size()); i++) { std::string x = i < la.size() ? la[i] : "<none>", y = i < lb.size() ? lb[i] : "<none>"; if (x != y) { d = "copy: " + x + " | original model: " + y; break; } }
 		violate("C16", "copy-differs:" + src->life, d); o->broken = true; return;
 	}
+	{ char *oa = mpq_QSget_objname(src->p), *ob = mpq_QSget_objname(q);   // names are part of "observably equal": the objective's (the problem's own name is the one the caller gave the copy)
+		if ((oa == 0) != (ob == 0) || (oa && ob && strcmp(oa, ob))) violate("C16", "copy-objname-differs", strf("objective name: original %s, copy %s", oa ? oa : "(none)", ob ? ob : "(none)"), false);
+		mpq_QSfree(oa); mpq_QSfree(ob); }
 	for (int w : {QS_PARAM_PRIMAL_PRICING, QS_PARAM_DUAL_PRICING, QS_PARAM_SIMPLEX_DISPLAY, QS_PARAM_SIMPLEX_MAX_ITERATIONS, QS_PARAM_SIMPLEX_SCALING}) {
 		int a = 0, b = 0; int ra = mpq_QSget_param(src->p, w, &a), rb = mpq_QSget_param(q, w, &b);
 		if (ra || rb || a != b) { violate("C16", strf("copy-param-differs:%d", w), strf("param %d: original %d copy %d", w, a, b), false); }
